@@ -72,7 +72,7 @@ def fs_term(state):
 
 
 # ----------------------------------------------------------------------------- processes
-def child(idx, root, script, timeout, hold, logpath):
+def child(idx, root, script, timeout, hold, logpath, delay=0.0):
     """runs in a forked process: a script of operations on ONE pool file with the lock calls logged"""
     from avocado_i2n.states import pool
     from virttest.utils_params import Params
@@ -106,6 +106,23 @@ def child(idx, root, script, timeout, hold, logpath):
     class Shutil:
         copy = staticmethod(slow_copy)
 
+    def slow_unlink(path):
+        # the deletion of the pool file is part of the critical section as well
+        if path.endswith(os.sep + "img"):
+            emit("in")
+            real_sleep(hold)
+            r = real_unlink(path)
+            emit("out")
+            return r
+        return real_unlink(path)
+
+    class Os:
+        def __getattr__(self, name):
+            return getattr(os, name)
+    osmod = Os()
+    osmod.unlink = slow_unlink
+    pool.os = osmod
+
     class Time:
         @staticmethod
         def sleep(t):
@@ -115,6 +132,8 @@ def child(idx, root, script, timeout, hold, logpath):
     params = Params({"update_pool_timeout": str(timeout)})
     cache = os.path.join(root, f"cache{idx}")
     poolf = os.path.join(root, "pool", "img")
+    if delay:
+        real_sleep(delay)
     for k, op in enumerate(script):
         try:
             if op == "up":
@@ -147,7 +166,7 @@ def child(idx, root, script, timeout, hold, logpath):
     os._exit(0)
 
 
-def run_scenario(root, nproc, scripts, timeout, hold, kill=None):
+def run_scenario(root, nproc, scripts, timeout, hold, kill=None, delays=None):
     shutil.rmtree(root, ignore_errors=True)
     os.makedirs(os.path.join(root, "pool"))
     with open(os.path.join(root, "pool", "img"), "w") as f:
@@ -155,7 +174,7 @@ def run_scenario(root, nproc, scripts, timeout, hold, kill=None):
     logpath = os.path.join(root, "events.log")
     open(logpath, "w").close()
     ctxmp = multiprocessing.get_context("fork")
-    procs = [ctxmp.Process(target=child, args=(i, root, scripts[i], timeout, hold, logpath)) for i in range(nproc)]
+    procs = [ctxmp.Process(target=child, args=(i, root, scripts[i], timeout, hold, logpath, (delays or [0] * nproc)[i])) for i in range(nproc)]
     for p in procs:
         p.start()
     killed = {}
@@ -263,9 +282,13 @@ def run(ctx, replay=None):
                 sc["hold"] = 0.25
                 sc["scripts"] = [["up"]] + [[rng.choice(["up", "down"])] for _ in range(nproc - 1)]
             scenarios.append(sc)
+        # a deletion while others wait for the lock and more arrive afterwards: the lock must stay ONE lock
+        for hold in ([0.08, 0.12, 0.05] if ctx.thorough else [0.08, 0.12]):
+            scenarios.append({"nproc": 4, "scripts": [["del"], ["up", "down"], ["up"], ["down", "up"]], "timeout": 300, "hold": hold,
+                              "kill": None, "delays": [0, hold * 0.3, hold * 1.4, hold * 1.8]})
     traces = []
     for sc in scenarios:
-        ev = run_scenario(root, sc["nproc"], sc["scripts"], sc["timeout"], sc["hold"], sc["kill"])
+        ev = run_scenario(root, sc["nproc"], sc["scripts"], sc["timeout"], sc["hold"], sc["kill"], sc.get("delays"))
         traces.append(ev)
     if traces:
         terms = [trace_term(ev) for ev in traces]
